@@ -199,13 +199,23 @@ def run(tier, rep):
     from mc.explore import trie
     total = Acc()
     # (1) character strings
-    strs = CH.all_strings(tier)
-    total.merge(run_texts(strs, ('parse',)))
-    lexonly = [x for x in strs if len(x) <= (2 if tier == 'quick' else 3)
-               or all(c in CH.CORE8 for c in x)]
-    total.merge(run_texts(lexonly, ('lex',)))
-    rep.space('sigma-char', strings=len(strs),
-              spaces=[(n, len(a), k) for n, a, k in CH.spaces(tier)])
+    nstr = {}
+    for purpose, modes in (('parse', ('parse',)), ('lex', ('lex',))):
+        sp, tasks = CH.string_tasks(tier, purpose)
+
+        def work_tasks(chunk, idx, sp=sp, modes=modes):
+            acc = Acc()
+            for task in chunk:
+                for t in CH.strings_of_task(sp, task):
+                    check_text(acc, t, modes)
+            return acc
+        n0 = total.cases
+        for a in pmap(work_tasks, tasks):
+            total.merge(a)
+        nstr[purpose] = total.cases - n0
+        rep.space('sigma-char-' + purpose, strings=nstr[purpose],
+                  spaces=[(n, len(a), k) for n, a, k in sp])
+    strs = list(CH.strings_of_task(sp, tasks[len(tasks) // 2]))[:9] or ['a']
     # (2) truncations and single-character corruptions of S2 programs
     base = [G.render(l) for l in G.programs(1)]
     if tier == 'thorough':
@@ -269,7 +279,10 @@ def run(tier, rep):
         'Oracle: outcome is a tree or ECMASyntaxError; every quoted '
         "'text' at L:C of the message occurs at L:C (R1 line counting). "
         'non-trivial = the input is rejected')
-    rep.cov['bounds'] = {'sigma': [(n, k) for n, a, k in CH.spaces(tier)],
+    rep.cov['bounds'] = {'sigma_parse': [(n, k) for n, a, k in
+                                         CH.spaces(tier, 'parse')],
+                         'sigma_lex': [(n, k) for n, a, k in
+                                       CH.spaces(tier, 'lex')],
                          's1_depth': d, 'code_points': hex(hi)}
     rep.assumptions += [
         'termination is claimed only for the explored inputs (watchdog '
